@@ -339,11 +339,12 @@ def modules():
 
 
 class GapChooser:
-    """hand-over gap schedules: threads run in name order without preemption, except that the k-th thread that arrives at
-    a hand-over (parked before Transport._send_user_message, its message built and the channel lock released) is held
-    there until no other thread can run.  k = 0: no hold.  This is the shape of every overtaking race of the channel
-    (a message in the gap while close / shutdown / peer CLOSE / another writer's refused send go ahead); one schedule per
-    hand-over instead of a search."""
+    """hold-point schedules: threads run in name order without preemption, except that at the k-th HOLD POINT the thread
+    concerned is held until no other thread can run.  Hold points: (a) a thread arrives at a hand-over (parked before
+    Transport._send_user_message, its message built and the channel lock released); (b) a thread waiting on a condition
+    has been notified (it is slow to re-acquire the lock).  k = 0: no hold.  These are the shapes of the overtaking races of
+    the channel (a message in the gap, or a woken writer that acts on stale state, while close / shutdown / peer CLOSE /
+    a window adjust / another writer go ahead); one schedule per hold point instead of a search."""
     def __init__(self, k):
         self.k, self.S = k, None
         self.seen, self.count, self.held, self.last = set(), 0, None, None
@@ -356,6 +357,11 @@ class GapChooser:
         for t in self.S.threads:
             if t.state == "ready" and getattr(t, "at", None) == "emit" and t.where == "emit" and (t.name, t.steps) not in self.seen:
                 self.seen.add((t.name, t.steps))
+                self.count += 1
+                if self.count == self.k:
+                    self.held = t.name
+            elif t.state == "blocked" and t.where == "cv.wait" and t.name in names and (t.name, t.steps, "w") not in self.seen:
+                self.seen.add((t.name, t.steps, "w"))
                 self.count += 1
                 if self.count == self.k:
                     self.held = t.name
@@ -696,7 +702,12 @@ def validate(c, runs, clauses, describe, chunk=1500):
     for i in range(0, len(items), chunk):
         part = items[i:i + chunk]
         batch = [tla_trace(it["prog"], it["verdict"]) for it in part]
-        res, _ = c.trace("Channel_Trace", batch, cfg)
+        try:
+            res, _ = c.trace("Channel_Trace", batch, cfg)
+        except Machinery as first:      # a JVM that dies under memory / thread pressure is retried once; a spec error fails again
+            if "unexpected exception" not in str(first) and "timed out" not in str(first):
+                raise
+            res, _ = c.trace("Channel_Trace", batch, cfg)
         done += len(res["DONE"])
         seen = set()
         rows = []
